@@ -251,12 +251,6 @@ func replaceTok(s, from, to string) string {
 	return string(out)
 }
 
-// cutLoop is the VC-mode treatment: invariant on entry, havoc, assume
-// invariant, run the body, invariant on every back edge.
-func (x *X) cutLoop(fr *frame, order []*ssa.BasicBlock, li *loopInfo) {
-	unsup("loops in VC mode not implemented yet")
-}
-
 // unreachable asks a solver whether cond contradicts the assumptions made so
 // far (used to prune dead loops before summarising them).
 func (x *X) unreachable(cond string) bool {
